@@ -1896,7 +1896,8 @@ class ConvSuite(Suite):
             longs = [("15" + "0" * N + "e-%d" % (N + 1), 1, 1.5), ("0." + "0" * N + "15e%d" % (N + 1), 1, 1.5), ("-25" + "0" * N + "e-%d" % (N - 1), -250, -250.0),
                      ("1" + "0" * N, 0, float("inf")), ("0." + "0" * N + "1", 0, 0.0)]
             for txt, iv, dv in longs:
-                t = rng.choice("SL") + txt.encode().hex()
+                # a copied string cannot be longer than the string-length field allows (65535 by default): longer ones are given by address
+                t = (rng.choice("SL") if len(txt) <= 65000 else "L") + txt.encode().hex()
                 cases.append(Case("conv %d t:%s" % (cb, t), term=t, want_int=iv, want_double=dv))
         return cases
 
